@@ -205,6 +205,9 @@ func init() {
 				c20Run(c, c20Case{Kind: "query", Text: c20Hex(c20RandomQuery(c))})
 			}
 			// ---- profiles: export, import, both link forms, with the malformed stream derived from them
+			for _, p := range c20BoundaryProfiles(c) {
+				c20Run(c, c20Case{Kind: "export", PB: c20PB(p)})
+			}
 			nprof := c.N(150, 1500)
 			for i := 0; i < nprof; i++ {
 				p := c20Profile(c, c20Str(c))
